@@ -565,6 +565,8 @@ def generate():
     report["files"].append("Gen/HornerKern.lean")
     report["kernels"].update(py2lean_kern.generate_cpowkern(fns, gen_dir, write_if_changed))
     report["files"].append("Gen/CPowKern.lean")
+    report["kernels"].update(py2lean_kern.generate_rothkern(fns, gen_dir, write_if_changed))
+    report["files"].append("Gen/RotHKern.lean")
     # ---- Dispatch.lean (for the line-protocol driver): every generated def by name ------------
     import re as _re
     cases = []
